@@ -58,9 +58,10 @@ def classify(path):
     return "other"
 
 
-def recover(image_dir, plan, tips, flushed, work):
-    """run the recovery oracle on an image -> (ok, oracle, msg)"""
-    root = os.path.join(work, "rroot")
+def recover(image_dir, plan, tips, flushed, work, record_to=None, batch=None):
+    """run the recovery oracle on an image -> (ok, oracle, msg). With record_to=(trace_path, stdout_path) the recovery itself runs
+    under the strace recorder (used to place a second crash inside the recovery); batch = coins-DB batch bytes of the recovering node."""
+    root = os.path.join(work, "rroot2" if record_to else "rroot")
     shutil.rmtree(root, ignore_errors=True)
     os.makedirs(root)
     tips_file = os.path.join(work, "tips.txt")
@@ -69,6 +70,17 @@ def recover(image_dir, plan, tips, flushed, work):
     open(empty, "wb").close()
     env = base_env()
     env.update(VH_C16_ROOT=root, VH_C16_IMAGE=image_dir, VH_C16_PLAN=plan, VH_C16_TIPS=tips_file, VH_C16_FLUSHED=flushed or "")
+    if batch:
+        env["VH_C16_BATCH"] = str(batch)
+    if record_to:
+        rc, err = crashlib.record([VH, "--target", "c16_recover", "--replay", empty], env, record_to[0], record_to[1], timeout=900)
+        out = open(record_to[1], errors="replace").read()
+        if rc == 0 and "REPLAY-OK" in out:
+            return True, "", root
+        sys.path.insert(0, os.path.join(VERIF, "bin"))
+        import check
+        oracle, msg = check.signature_from_stderr(err + "\n" + out)
+        return False, oracle, msg
     try:
         r = run_target("c16_recover", env, empty)
     except subprocess.TimeoutExpired:
@@ -259,6 +271,10 @@ def main():
         stats["classes"]["ops-in-trace"] = stats["classes"].get("ops-in-trace", 0) + len(ops)
         stats["classes"]["cut-points-available"] = stats["classes"].get("cut-points-available", 0) + len(cand)
         img = os.path.join(work, "image")
+        second_level_left = 1 if a.tier == "quick" else 4
+        ign = ("debug.log", ".lock", "LOCK")
+        # take the coins-batch cuts first so that the second-level exploration gets its chance within the time budget
+        chosen.sort(key=lambda kk: 0 if is_coins_w(kk - 1) else 1)
         for k in chosen:
             if a.max_seconds and time.time() - t0 > a.max_seconds:
                 stats["stopped_by"] = "time"
@@ -303,6 +319,43 @@ def main():
                     fail(oracle, msg, img, plan, tips, flushed, meta)
                 if oracle == "timeout":
                     cls("recovery-timeout-inconclusive")
+                # fault SEQUENCES: a second crash while the node recovers from this image (the flush that ends ReplayBlocks)
+                if mode == "kill" and is_coins_w(k - 1) and second_level_left > 0:
+                    second_level_left -= 1
+                    tr2, so2 = os.path.join(work, "trace2.txt"), os.path.join(work, "stdout2.txt")
+                    ok2, oracle2, root2 = recover(img, plan, tips, flushed, work, record_to=(tr2, so2), batch=rng.choice([120, 300, 900]))
+                    if not ok2:
+                        fail(oracle2, root2, img, plan, tips, flushed, dict(meta, mode=mode + "+recovery-with-small-batches"))
+                    dd2 = os.path.join(root2, SUB)
+                    sizes1 = {os.path.relpath(os.path.join(b, n), img): os.path.getsize(os.path.join(b, n)) for b, _, ns in os.walk(img) for n in ns}
+                    ops2, marks2 = crashlib.parse_trace(tr2, dd2, sizes1)
+                    os.unlink(tr2)
+                    chk2 = os.path.join(work, "selfcheck2")
+                    crashlib.build_image(img, ops2, len(ops2), chk2)
+                    if crashlib.dir_digest(chk2, ign) != crashlib.dir_digest(dd2, ign):
+                        broken("recorder self-check failed for a recorded recovery run")
+                    shutil.rmtree(chk2, ignore_errors=True)
+                    shutil.rmtree(os.path.join(work, "rroot2"), ignore_errors=True)
+                    def is_coins_w2(i):
+                        return 0 <= i < len(ops2) and ops2[i].kind == "w" and classify(ops2[i].path) == "coins-log"
+                    cuts2 = [j for j in range(1, len(ops2) + 1) if is_coins_w2(j - 1)]
+                    rng.shuffle(cuts2)
+                    others2 = [j for j in range(1, len(ops2)) if ops2[j].kind in ("w", "r", "u", "s") and not is_coins_w2(j - 1)]
+                    rng.shuffle(others2)
+                    img2 = os.path.join(work, "image2")
+                    for k2 in cuts2[:6] + others2[:2]:
+                        crashlib.build_image(img, ops2, k2, img2)
+                        meta2 = dict(meta, mode="kill+kill-during-recovery", cut2=k2, of2=len(ops2), coins_batches_in_recovery=len(cuts2))
+                        ok3, oracle3, msg3 = recover(img2, plan, tips, flushed, work)
+                        stats["cases"] += 1
+                        stats["steps"] += 1
+                        stats["nontrivial"] += 1
+                        cls("mode:double-crash")
+                        if is_coins_w2(k2 - 1):
+                            cls("second-cut-after-recovery-coins-batch")
+                        shapes.add(int.from_bytes(hashlib.sha256(f"{a.seed}/{a.worker}/{wl}/{k}/{k2}/double".encode()).digest()[:8], "little"))
+                        if not ok3:
+                            fail(oracle3, msg3, img2, plan, tips, flushed, meta2)
             if stats["cases"] % 10 == 0:
                 flush()
     flush()
